@@ -1,0 +1,186 @@
+//go:build verif
+
+package hpack
+
+// Contracts, spec functions and lemma harnesses for property C04 (Huffman coding), checked by the
+// deductive verifier in /verif (govc). Compiled only with -tags verif; adds no behaviour.
+
+// ---------------------------------------------------------------------------
+// Table lemmas over the generated arrays huffmanCodes / huffmanCodeLen (tables.go). The verifier
+// reads the array literals from the typed syntax tree, so these are statements about the real
+// tables, for all 256 symbols (resp. all 65536 ordered pairs of symbols).
+
+// lemmaHuffLen: every code length is in 5..30.
+//
+//@ lemma
+//@ cases b < 32 else b < 64 else b < 96 else b < 128 else b < 160 else b < 192 else b < 224
+//@ ensures 5 <= huffmanCodeLen[b] && huffmanCodeLen[b] <= 30
+func lemmaHuffLen(b byte) {}
+
+// lemmaHuffTables: for every symbol (complete unrolling over the 256 table entries, evaluated on
+// the real array literals): the length is in 5..30, the code fits its length (no bit at or above
+// position codeLen), and the code is not all ones, so no symbol code is a prefix of the EOS code
+// (thirty one-bits) and all-ones padding of up to 7 bits can never complete a symbol.
+//
+//@ lemma
+//@ loop 1 unroll 257
+//@ ensures ok
+func lemmaHuffTables() (ok bool) {
+	for b := 0; b < 256; b++ {
+		l := huffmanCodeLen[b]
+		c := uint64(huffmanCodes[b])
+		if !(5 <= l && l <= 30 && c>>l == 0 && c != uint64(1)<<l-1) {
+			return false
+		}
+	}
+	return true
+}
+
+// ---------------------------------------------------------------------------
+// Encoder.
+
+// huffBits is the number of bits of the Huffman encoding of s[:i]: the sum of the code lengths.
+//
+//@ pure
+//@ recursive
+func huffBits(s string, i int) uint64 {
+	if i <= 0 {
+		return 0
+	}
+	return huffBits(s, i-1) + uint64(huffmanCodeLen[s[i-1]])
+}
+
+// huffPadMask is the mask of the unused low bits of the last byte of an encoding of the given
+// number of bits (8 - bits%8 one-bits; 0xff, i.e. no constraint, never used when bits%8 == 0).
+//
+//@ pure
+func huffPadMask(bits uint64) byte { return byte(0xff) >> (bits % 8) }
+
+// HuffmanEncodeLength: the sum of the code lengths rounded up to whole bytes. The sum is a
+// 64-bit value exactly as in the code (for strings below 2^56 bytes it is at most 30 per symbol by
+// lemmaHuffLen, so neither the sum nor the rounding wraps: that bound is used and proved in
+// AppendHuffmanString).
+//
+//@ func HuffmanEncodeLength(s) (r)
+//@   hide huffmanCodeLen
+//@   loop 1 invariant 0 <= i && i <= len(s) && n == huffBits(s, i)
+//@   ensures r == (huffBits(s, len(s)) + 7) / 8
+
+// AppendHuffmanString: appends exactly ceil(huffBits/8) bytes after dst, keeps dst's bytes, and
+// when the bit count is not a multiple of 8 the unused low bits of the last byte are all ones
+// (fewer than 8 of them: EOS-prefix padding).
+//
+//@ func AppendHuffmanString(dst, s) (out)
+//@   hide huffmanCodeLen, huffmanCodes
+//@   uses lemmaHuffLen
+//@   requires len(s) <= 1<<56 && len(dst) <= 1<<56
+//@   loop 1 invariant 0 <= i && i <= len(s) && n < 32
+//@   loop 1 invariant len(dst) >= len(atloop(dst)) && len(dst) - len(atloop(dst)) <= 4*i
+//@   loop 1 invariant uint64(8*(len(dst) - len(atloop(dst)))) + uint64(n) == huffBits(s, i)
+//@   loop 1 invariant forall k int :: 0 <= k && k < len(atloop(dst)) ==> dst[k] == atloop(dst[k])
+//@   ensures len(out) == len(dst) + int((huffBits(s, len(s)) + 7) / 8)
+//@   ensures forall k int :: 0 <= k && k < len(dst) ==> out[k] == old(dst[k])
+//@   ensures huffBits(s, len(s)) % 8 != 0 ==> out[len(out)-1] & huffPadMask(huffBits(s, len(s))) == huffPadMask(huffBits(s, len(s)))
+//@   loop 1 invariant samebase(dst, old(dst)) || fresh(dst)
+//@   loop 1 modifies spare(dst)
+//@   ensures samebase(out, dst) || fresh(out)
+//@   modifies spare(dst)
+//@   allocates
+
+// ---------------------------------------------------------------------------
+// Decode tree.
+
+// ---------------------------------------------------------------------------
+// Decoder.
+
+// The number of decoded bytes held by buf (buf.Len()) is written len(buf.buf) - buf.off, the
+// representation the trusted bytes.Buffer contracts in /verif/stdlib/huff.contracts speak about.
+
+// huffNodeRef names the pointer type in quantifiers.
+type huffNodeRef = *node
+
+// huffLevel is the depth of an internal node in the decode tree (0 for the root). It is an
+// uninterpreted ghost function: the assumed tree invariant below says that such a function
+// exists with values 0..3 (codes are at most 30 bits = 3 full bytes + a rest of 1..8 bits).
+func huffLevel(p *node) int { return 0 }
+
+//@ func huffLevel(p) (r)
+//@   trusted
+//@   function
+
+//@ pure
+func huffLvl(p *node) int { return huffLevel(p) }
+
+// getRootHuffmanNode returns the decode tree built once (sync.Once) by buildRootHuffmanNode.
+// ASSUMED, not proved (buildRootHuffmanNode is out of reach of the verifier, see the report):
+// the root is an internal node of level 0; internal nodes have levels 0..3 and an internal child
+// is one level below its parent; every node object without children table is a leaf whose
+// remaining code length is 1..8.
+//
+//@ func getRootHuffmanNode() (r)
+//@   trusted
+//@   ensures r != nil && r.children != nil && huffLvl(r) == 0
+//@   ensures forall p huffNodeRef :: p != nil && p.children == nil ==> 1 <= p.codeLen && p.codeLen <= 8
+//@   ensures forall p huffNodeRef :: p != nil && p.children != nil ==> 0 <= huffLvl(p) && huffLvl(p) <= 3
+//@   ensures forall p huffNodeRef, i byte :: p != nil && p.children != nil && p.children[i] != nil && p.children[i].children != nil ==> huffLvl(p.children[i]) == huffLvl(p) + 1
+
+// huffmanDecode. For every input, buffer state and maxLen (under the assumed tree invariant):
+// no panic; the error is nil, ErrInvalidHuffman or ErrStringLength; the buffer only grows, and
+// with maxLen > 0 never beyond maxLen (ErrStringLength exactly at that limit). The ghost counter
+// `used` sums the full code lengths (8*level + rest) of the symbols written to buf; when the
+// input is accepted, the bits not used by symbols are fewer than 8 (no over-long padding, no
+// incomplete symbol) and they are all ones (EOS prefix).
+//
+//@ func huffmanDecode(buf, maxLen, v) (err)
+//@   requires buf != nil && len(v) <= 1<<56 && !samebase(v, buf.buf)
+//@   ghost used += uint64(sbits) - uint64(cbits) + uint64(n.codeLen) at call WriteByte
+//@   ghost syms += 1 at call WriteByte
+//@   loop 1 invariant -1 <= rangeindex && rangeindex < len(v) && (rangeindex >= 0 ==> cur & 0xff == uint(v[rangeindex]))
+//@   loop 1 invariant n != nil && n.children != nil && cbits < 8 && cbits <= sbits && int(sbits) - int(cbits) == 8*huffLvl(n)
+//@   loop 1 invariant ghost(used) + uint64(sbits) == 8*uint64(rangeindex+1)
+//@   loop 1 invariant len(buf.buf) - buf.off == old(len(buf.buf) - buf.off) + int(ghost(syms)) && ghost(syms) <= ghost(used)
+//@   loop 1 invariant maxLen > 0 && old(len(buf.buf) - buf.off) <= maxLen ==> len(buf.buf) - buf.off <= maxLen
+//@   loop 1 invariant samebase(buf.buf, old(buf.buf)) || fresh(buf.buf)
+//@   loop 1 modifies *buf, elems(buf.buf), spare(buf.buf)
+//@   loop 2 invariant n != nil && n.children != nil && cbits < 16 && cbits <= sbits && int(sbits) - int(cbits) == 8*huffLvl(n)
+//@   loop 2 invariant ghost(used) + uint64(sbits) == atloop(ghost(used) + uint64(sbits)) && cur == atloop(cur)
+//@   loop 2 invariant len(buf.buf) - buf.off == old(len(buf.buf) - buf.off) + int(ghost(syms)) && ghost(syms) <= ghost(used)
+//@   loop 2 invariant maxLen > 0 && old(len(buf.buf) - buf.off) <= maxLen ==> len(buf.buf) - buf.off <= maxLen
+//@   loop 2 invariant samebase(buf.buf, old(buf.buf)) || fresh(buf.buf)
+//@   loop 2 modifies *buf, elems(buf.buf), spare(buf.buf)
+//@   loop 3 invariant n != nil && n.children != nil && cbits < 8 && cbits <= sbits && int(sbits) - int(cbits) == 8*huffLvl(n)
+//@   loop 3 invariant ghost(used) + uint64(sbits) == 8*uint64(len(v)) && ghost(used) <= 8*uint64(len(v)) && (len(v) > 0 ==> cur & 0xff == uint(v[len(v)-1]))
+//@   loop 3 invariant len(buf.buf) - buf.off == old(len(buf.buf) - buf.off) + int(ghost(syms)) && ghost(syms) <= ghost(used)
+//@   loop 3 invariant maxLen > 0 && old(len(buf.buf) - buf.off) <= maxLen ==> len(buf.buf) - buf.off <= maxLen
+//@   loop 3 invariant samebase(buf.buf, old(buf.buf)) || fresh(buf.buf)
+//@   loop 3 modifies *buf, elems(buf.buf), spare(buf.buf)
+//@   ensures err == nil || err == ErrInvalidHuffman || err == ErrStringLength
+//@   ensures err == ErrStringLength ==> maxLen != 0 && len(buf.buf) - buf.off == maxLen
+//@   ensures maxLen > 0 && old(len(buf.buf) - buf.off) <= maxLen ==> len(buf.buf) - buf.off <= maxLen
+//@   ensures len(buf.buf) - buf.off == old(len(buf.buf) - buf.off) + int(ghost(syms))
+//@   ensures ghost(used) <= 8*uint64(len(v)) && ghost(syms) <= ghost(used)
+//@   ensures err == nil ==> 8*uint64(len(v)) - ghost(used) <= 7
+//@   ensures err == nil && len(v) > 0 && ghost(used) < 8*uint64(len(v)) ==> v[len(v)-1] & huffPadMask(ghost(used)) == huffPadMask(ghost(used))
+//@   modifies *buf, elems(buf.buf), spare(buf.buf)
+//@   allocates
+
+// lemmaHuffPrefixFreeAll: no code is a prefix of the code of another symbol (in particular the
+// codes are pairwise different): for a != b with len(a) <= len(b), the first len(a) bits of b's
+// code differ from a's code. Complete unrolling over all 65536 ordered pairs of symbols,
+// evaluated on the real array literals.
+//
+//@ lemma
+//@ loop 1 unroll 257
+//@ loop 2 unroll 257
+//@ ensures ok
+func lemmaHuffPrefixFreeAll() (ok bool) {
+	for a := 0; a < 256; a++ {
+		for b := 0; b < 256; b++ {
+			la, lb := huffmanCodeLen[a], huffmanCodeLen[b]
+			if a != b && la <= lb && huffmanCodes[b]>>(lb-la) == huffmanCodes[a] {
+				return false
+			}
+		}
+	}
+	return true
+}
